@@ -354,27 +354,28 @@ Proof.
   - apply sem_cond_ext. intros s Hs. apply H. set_solver.
   - apply IH. intros s Hs. apply H. set_solver.
 Qed.
-Definition drv_ok (k : rctx) (nd : string * driver) : Prop :=
-  nd.1 ∈ k_rsv k ∧ (list_to_set (dep_ids nd.2) : gset string) ⊆ k_rsv k.
+(* NN: the net names of the module (a subset of the reserved names; pin names of blackbox instances are outside) *)
+Definition drv_ok (k : rctx) (NN : gset string) (nd : string * driver) : Prop :=
+  nd.1 ∈ NN ∧ nd.1 ∈ k_rsv k ∧ (list_to_set (dep_ids nd.2) : gset string) ⊆ k_rsv k.
 (* P: the drivers processed so far *)
-Record rinv (k : rctx) (P : list (string * driver)) (g : circuit) (ge : gset string) : Prop := mk_rinv {
+Record rinv (k : rctx) (NN : gset string) (P : list (string * driver)) (g : circuit) (ge : gset string) : Prop := mk_rinv {
   ri_gst : gst k (g, ge);
   ri_ties : ties_ok k g;
   ri_tx : txok k g;
-  ri_undef : ∀ n, n ∈ k_rsv k → n ∉ P.*1 → undef_ok g n;
+  ri_undef : ∀ n, n ∈ NN → n ∉ P.*1 → undef_ok g n;
   ri_eq : ∀ n d, (n, d) ∈ P → ∀ v, consistent g v → v n = sem_driver v (v (k_tx k)) d;
-  ri_names : Forall (drv_ok k) P }.
+  ri_names : Forall (drv_ok k NN) P }.
 
-Lemma rinv_refine k P g ge g' ge' : rinv k P g ge → refines_rsv k g g' → gst k (g', ge') → ties_ok k g' → txok k g' →
-  (∀ n, n ∈ k_rsv k → n ∉ P.*1 → undef_ok g n → undef_ok g' n) → rinv k P g' ge'.
+Lemma rinv_refine k NN P g ge g' ge' : rinv k NN P g ge → refines_rsv k g g' → gst k (g', ge') → ties_ok k g' → txok k g' →
+  (∀ n, n ∈ NN → n ∉ P.*1 → undef_ok g n → undef_ok g' n) → rinv k NN P g' ge'.
 Proof.
   intros [G T X U E N] Hr G' T' X' U'. split; try done.
   - intros n Hn Hp. apply U'; auto.
-  - intros n d Hnd v Hv. destruct (Hr v Hv) as (v1 & C1 & A1 & X1). rewrite Forall_forall in N. destruct (N _ Hnd) as [Hn Hd]. simpl in *.
+  - intros n d Hnd v Hv. destruct (Hr v Hv) as (v1 & C1 & A1 & X1). rewrite Forall_forall in N. destruct (N _ Hnd) as (_ & Hn & Hd). simpl in *.
     rewrite <- (A1 n Hn), <- X1. rewrite (E n d Hnd v1 C1). apply sem_driver_ext. intros s Hs. apply A1, Hd. by apply elem_of_list_to_set.
 Qed.
-Lemma rinv_add k P g ge n d : rinv k P g ge → drv_ok k (n, d) →
-  (∀ v, consistent g v → v n = sem_driver v (v (k_tx k)) d) → rinv k (P ++ [(n, d)]) g ge.
+Lemma rinv_add k NN P g ge n d : rinv k NN P g ge → drv_ok k NN (n, d) →
+  (∀ v, consistent g v → v n = sem_driver v (v (k_tx k)) d) → rinv k NN (P ++ [(n, d)]) g ge.
 Proof.
   intros [G T X U E N] Hd He. split; try done.
   - intros m Hm Hp. apply U; [done|]. rewrite fmap_app in Hp. set_solver.
@@ -382,39 +383,40 @@ Proof.
   - apply Forall_app. split; [done|]. by constructor.
 Qed.
 
-Lemma rinv_step k P g ge g' ge' n d : rinv k P g ge → refines_rsv k g g' → gst k (g', ge') → ties_ok k g' → txok k g' → drv_ok k (n, d) →
+Lemma rinv_step k NN P g ge g' ge' n d : rinv k NN P g ge → refines_rsv k g g' → gst k (g', ge') → ties_ok k g' → txok k g' → drv_ok k NN (n, d) →
   (∀ v, consistent g' v → v n = sem_driver v (v (k_tx k)) d) →
-  (∀ m, m ∈ k_rsv k → m ∉ P.*1 → m ≠ n → undef_ok g m → undef_ok g' m) → rinv k (P ++ [(n, d)]) g' ge'.
+  (∀ m, m ∈ NN → m ∉ P.*1 → m ≠ n → undef_ok g m → undef_ok g' m) → rinv k NN (P ++ [(n, d)]) g' ge'.
 Proof.
   intros [G T X U E N] Hr G' T' X' Hd He U'. split; try done.
   - intros m Hm Hp. rewrite fmap_app in Hp. apply U'; [done|set_solver|set_solver|]. apply U; [done|set_solver].
   - intros m d' [Hin|Hin]%elem_of_app.
-    + intros v Hv. destruct (Hr v Hv) as (v1 & C1 & A1 & X1). rewrite Forall_forall in N. destruct (N _ Hin) as [Hn Hdd]. simpl in *.
+    + intros v Hv. destruct (Hr v Hv) as (v1 & C1 & A1 & X1). rewrite Forall_forall in N. destruct (N _ Hin) as (_ & Hn & Hdd). simpl in *.
       rewrite <- (A1 m Hn), <- X1. rewrite (E m d' Hin v1 C1). apply sem_driver_ext. intros s Hs. apply A1, Hdd. by apply elem_of_list_to_set.
     + apply elem_of_list_singleton in Hin. injection Hin as -> ->. done.
   - apply Forall_app. split; [done|]. by constructor.
 Qed.
 
 Section fold.
-  Context (k : rctx).
+  Context (k : rctx) (NN : gset string).
   Hypothesis Htr : ties k ## k_rsv k.
+  Hypothesis HNN : NN ⊆ k_rsv k.
 
-  Lemma assigns_rinv l : ∀ st st' P, rfold (c_assign k) st l = Ok st' → rinv k P st.1 st.2 →
-    Forall (λ a : string * cond, drv_ok k (a.1, DAssign a.2)) l → NoDup (P.*1 ++ l.*1) →
-    rinv k (P ++ ((λ a : string * cond, (a.1, DAssign a.2)) <$> l)) st'.1 st'.2.
+  Lemma assigns_rinv l : ∀ st st' P, rfold (c_assign k) st l = Ok st' → rinv k NN P st.1 st.2 →
+    Forall (λ a : string * cond, drv_ok k NN (a.1, DAssign a.2)) l → NoDup (P.*1 ++ l.*1) →
+    rinv k NN (P ++ ((λ a : string * cond, (a.1, DAssign a.2)) <$> l)) st'.1 st'.2.
   Proof.
     induction l as [|[lv e] l IH]; intros st st' P H Hi Hok Hnd; simpl in H.
     - injection H as <-. simpl. by rewrite app_nil_r.
-    - apply rbind_ok in H as (st1 & H1 & H2). inversion Hok as [|? ? [Hlv Hide] Hok']; subst. simpl in *.
+    - apply rbind_ok in H as (st1 & H1 & H2). inversion Hok as [|? ? (HlvN & Hlv & Hide) Hok']; subst. simpl in *.
       pose proof Hi as [G T X U E N].
       assert (Hnp : lv ∉ P.*1). { apply NoDup_app in Hnd as (_ & Hd & _). intros Hin. apply (Hd lv Hin). by left. }
       assert (Gst : gst k st) by (by destruct st).
-      destruct (c_assign_step k st lv e st1 Htr H1 Gst T Hide Hlv (U lv Hlv Hnp)) as (G1 & T1 & U1 & R1 & E1).
+      destruct (c_assign_step k st lv e st1 Htr H1 Gst T Hide Hlv (U lv HlvN Hnp)) as (G1 & T1 & U1 & R1 & E1).
       assert (X1 : txok k st1.1).
       { destruct X as (i & Hx & Hc). exists i. split; [|done]. rewrite <- Hx.
         eapply (c_assign_keeps k st lv e st1); try done; [by apply U|unfold ties; set_solver]. }
-      assert (Hi1 : rinv k (P ++ [(lv, DAssign e)]) st1.1 st1.2).
-      { eapply rinv_step; [exact Hi|exact R1|by destruct st1|done|exact X1|done|exact E1|]. intros m Hm Hp Hne Hu. by apply U1. }
+      assert (Hi1 : rinv k NN (P ++ [(lv, DAssign e)]) st1.1 st1.2).
+      { eapply rinv_step; [exact Hi|exact R1|by destruct st1|done|exact X1|done|exact E1|]. intros m Hm Hp Hne Hu. apply U1; [by apply HNN|done|done]. }
       specialize (IH st1 st' _ H2 Hi1 Hok'). rewrite <- app_assoc in IH. apply IH.
       rewrite fmap_app. simpl. rewrite <- app_assoc. simpl.
       apply NoDup_app in Hnd as (N1 & N2 & N3). apply NoDup_cons in N3 as [N3 N4].
@@ -424,11 +426,11 @@ Section fold.
   Qed.
 
   Lemma inputs_rinv ns : ∀ g g' ge P, rfold (λ g n, r ← add_node (k_rsv k) g n Input [] false; Ok r.1) g ns = Ok g' →
-    rinv k P g ge → (∀ n, n ∈ ns → n ∈ k_rsv k ∧ n ∉ P.*1) → rinv k P g' ge.
+    rinv k NN P g ge → (∀ n, n ∈ ns → n ∈ NN ∧ n ∈ k_rsv k ∧ n ∉ P.*1) → rinv k NN P g' ge.
   Proof.
     induction ns as [|n ns IH]; intros g g' ge P H Hi Hns; simpl in H; [by injection H as <-|].
     apply rbind_ok in H as (g1 & H1 & H2). apply mbind_ok in H1 as ([g1' nm] & H1 & E). injection E as <-. simpl in *.
-    destruct (Hns n) as [Hn Hnp]; [by left|]. pose proof Hi as [G T X U Eq N].
+    destruct (Hns n) as (HnN & Hn & Hnp); [by left|]. pose proof Hi as [G T X U Eq N].
     eapply IH; [exact H2| |intros; apply Hns; by right].
     eapply rinv_refine; [exact Hi| | | | |].
     - apply refines_same. intros v. eapply add_node_consistent; [exact H1|]. by apply U.
@@ -510,13 +512,13 @@ Section fold.
 
   (* what the guard says about one instance of primitive t *)
   Definition prim_guard (t : gtype) (ic : string * conns) : Prop :=
-    ∃ n ins, ic.2 = Positional (cid n :: ins) ∧ drv_ok k (n, DPrim t ins) ∧ ins ≠ [] ∧ (t = Buf ∨ t = Not → length ins = 1).
+    ∃ n ins, ic.2 = Positional (cid n :: ins) ∧ drv_ok k NN (n, DPrim t ins) ∧ ins ≠ [] ∧ (t = Buf ∨ t = Not → length ins = 1).
   Definition prim_drv (t : gtype) (ic : string * conns) : list (string * driver) :=
     match ic.2 with Positional (o :: ins) => match as_id o with Some n => [(n, DPrim t ins)] | None => [] end | _ => [] end.
 
-  Lemma prims_rinv t cl : ∀ insts g g' ge P, rfold (prim_instance k t) g cl = Ok g' → rinv k P g ge →
+  Lemma prims_rinv t cl : ∀ insts g g' ge P, rfold (prim_instance k t) g cl = Ok g' → rinv k NN P g ge →
     Forall2 (cgood g) insts cl → t ∈ gate_types → Forall (prim_guard t) insts →
-    NoDup (P.*1 ++ (insts ≫= prim_drv t).*1) → rinv k (P ++ (insts ≫= prim_drv t)) g' ge.
+    NoDup (P.*1 ++ (insts ≫= prim_drv t).*1) → rinv k NN (P ++ (insts ≫= prim_drv t)) g' ge.
   Proof.
     induction cl as [|cc cl IH]; intros insts g g' ge P H Hi HF Ht HG Hnd; simpl in H.
     - injection H as <-. inversion HF; subst. simpl. by rewrite app_nil_r.
@@ -527,9 +529,9 @@ Section fold.
       apply mbind_ok in H1 as ([g1x nm'] & Ha & E). injection E as E. simpl in E. subst g1x. simpl in *.
       assert (Hdr : prim_drv t ic = [(n, DPrim t ins)]). { unfold prim_drv. by rewrite E1. }
       cbn [mbind list_bind] in Hnd |- *. fold (mbind (M:=list) (prim_drv t)) in Hnd |- *. rewrite Hdr in Hnd |- *.
-      pose proof Hi as [G T X U Eq N]. destruct Hdrv as [Hn Hids].
+      pose proof Hi as [G T X U Eq N]. destruct Hdrv as (HnN & Hn & Hids).
       assert (Hnp : n ∉ P.*1). { apply NoDup_app in Hnd as (_ & Hd & _). intros Hin. apply (Hd n Hin). simpl. by left. }
-      pose proof (U n Hn Hnp) as Hun.
+      pose proof (U n HnN Hnp) as Hun.
       assert (Hcons : ∀ v, consistent g1 v → consistent g v) by (intros v; by eapply add_node_consistent).
       assert (Hrs : rs ≠ []). { intros ->. inversion Fo; subst. done. }
       pose proof (prim_sel_ne t rs Hrs) as Hfi.
@@ -537,7 +539,7 @@ Section fold.
       { destruct X as (i & Hx & Hc). exists i. split; [|done]. rewrite <- Hx. eapply add_node_keeps; [exact Ha| |].
         - intros <-. apply (Htr (k_tx k)); [unfold ties; set_solver|done].
         - apply elem_of_dom. eauto. }
-      assert (Hi1 : rinv k (P ++ [(n, DPrim t ins)]) g1 ge).
+      assert (Hi1 : rinv k NN (P ++ [(n, DPrim t ins)]) g1 ge).
       { eapply rinv_step; [exact Hi|by apply refines_same|by eapply add_node_gst|by eapply add_node_ties|exact X1|by split| |].
         - intros v Hv. pose proof Ha as Hsh. apply add_node_shape in Hsh as (Hl & _).
           assert (fanin g n = ∅) as Hf0. { unfold fanin. destruct (g !! n) as [j|] eqn:Ej; [|done]. simpl. by destruct (Hun j Ej). }
@@ -557,8 +559,9 @@ End fold.
 
 (* ------------------------------------------------------------------ the item fold, blackbox-free modules *)
 Section items.
-  Context (k : rctx) (DD : gset string).
+  Context (k : rctx) (NN DD : gset string).
   Hypothesis Htr : ties k ## k_rsv k.
+  Hypothesis HNN : NN ⊆ k_rsv k.
 
   (* frames of the compile phase of an instance statement with positional connections *)
   Lemma insts_frame_pos (F : cstate → cstate → Prop) : (∀ s, F s s) → (∀ a b c, F a b → F b c → F a c) →
@@ -577,20 +580,20 @@ Section items.
 
   Definition item_den_ok (it : item) : Prop :=
     match it with
-    | IInput ns => ∀ n, n ∈ ns → n ∈ k_rsv k ∧ n ∉ DD
-    | IAssign l => Forall (λ a : string * cond, drv_ok k (a.1, DAssign a.2)) l
-    | IInst mn insts => ∃ t, prim_of_name mn = Some t ∧ t ∈ gate_types ∧ Forall (prim_guard k t) insts
+    | IInput ns => ∀ n, n ∈ ns → n ∈ NN ∧ n ∈ k_rsv k ∧ n ∉ DD
+    | IAssign l => Forall (λ a : string * cond, drv_ok k NN (a.1, DAssign a.2)) l
+    | IInst mn insts => ∃ t, prim_of_name mn = Some t ∧ t ∈ gate_types ∧ Forall (prim_guard k NN t) insts
     | _ => True end.
   Lemma prim_drv_eq mn t ic : prim_of_name mn = Some t → inst_drivers mn ic = prim_drv t ic.
   Proof. intros E. unfold inst_drivers, prim_drv. rewrite E. done. Qed.
 
-  Lemma c_item_rinv st it st' P : c_item k st it = Ok st' → rinv k P (r_g st) (r_ge st) → item_den_ok it →
+  Lemma c_item_rinv st it st' P : c_item k st it = Ok st' → rinv k NN P (r_g st) (r_ge st) → item_den_ok it →
     NoDup (P.*1 ++ (item_drivers it).*1) → (list_to_set P.*1 : gset string) ⊆ DD →
-    rinv k (P ++ item_drivers it) (r_g st') (r_ge st').
+    rinv k NN (P ++ item_drivers it) (r_g st') (r_ge st').
   Proof.
     destruct it as [ns|ns|ns|mn insts|l]; simpl; intros H Hi Hok Hnd HDD.
     - apply mbind_ok in H as (g & H1 & H). injection H as <-. simpl. rewrite app_nil_r.
-      eapply inputs_rinv; [done|exact H1|exact Hi|]. intros n Hn. destruct (Hok n Hn) as [? Hd]. split; [done|]. intros Hin. apply Hd, HDD. by apply elem_of_list_to_set.
+      eapply inputs_rinv; [done|done|exact H1|exact Hi|]. intros n Hn. destruct (Hok n Hn) as (? & ? & Hd). split; [done|]. split; [done|]. intros Hin. apply Hd, HDD. by apply elem_of_list_to_set.
     - injection H as <-. by rewrite app_nil_r.
     - injection H as <-. by rewrite app_nil_r.
     - destruct Hok as (t & Ep & Ht & HG). rewrite Ep in H. fold (inst_step k) in H.
@@ -603,37 +606,19 @@ Section items.
       destruct (insts_compile_prim k insts _ _ _ H1 T Hpos) as [Ss Fc]. simpl in *.
       destruct (insts_frame_pos (frg k) (frg_refl k) (frg_trans k) (frg_list k) _ _ _ _ H1 Hpos') as [_ Gc]. specialize (Gc G).
       pose proof (insts_frame_pos (fr2 k) (fr2_refl k) (fr2_trans k) (fr2_list k) _ _ _ _ H1 Hpos') as F2.
-      assert (Hic : rinv k P stc.1 stc.2).
+      assert (Hic : rinv k NN P stc.1 stc.2).
       { eapply rinv_refine; [exact Hi|by apply refines_sub|by destruct stc|by eapply ties_mono| |].
         { destruct X as (i & Hx & Hc). exists i. split; [|done]. by eapply lookup_weaken. }
-        intros n Hn Hp Hu. by eapply (fr2_undef k (r_g st, r_ge st) stc). }
+        intros n Hn Hp Hu. eapply (fr2_undef k (r_g st, r_ge st) stc); [done|by apply HNN|done]. }
       assert (Hd : insts ≫= inst_drivers mn = insts ≫= prim_drv t).
       { clear -Ep. induction insts as [|ic insts IH]; [done|]. cbn. rewrite IH. by rewrite (prim_drv_eq mn t ic Ep). }
-      rewrite Hd in Hnd |- *. eapply (prims_rinv k Htr t cl insts stc.1 g stc.2 P); done.
+      rewrite Hd in Hnd |- *. eapply (prims_rinv k NN Htr HNN t cl insts stc.1 g stc.2 P); done.
     - apply mbind_ok in H as (r & H1 & H). injection H as <-. simpl.
       assert (Hl1 : ((λ p : string * cond, (p.1, DAssign p.2)) <$> l).*1 = l.*1).
       { clear. induction l as [|a l IH]; [done|]. rewrite !fmap_cons. f_equal. exact IH. }
-      rewrite Hl1 in Hnd. eapply (assigns_rinv k Htr l (r_g st, r_ge st) r P); [exact H1|exact Hi|exact Hok|exact Hnd].
+      rewrite Hl1 in Hnd. eapply (assigns_rinv k NN Htr HNN l (r_g st, r_ge st) r P); [exact H1|exact Hi|exact Hok|exact Hnd].
   Qed.
 
-  Lemma items_rinv items : ∀ st st' P, rfold (c_item k) st items = Ok st' → rinv k P (r_g st) (r_ge st) →
-    Forall item_den_ok items → NoDup (P.*1 ++ (items ≫= item_drivers).*1) →
-    (list_to_set (P.*1 ++ (items ≫= item_drivers).*1) : gset string) ⊆ DD →
-    rinv k (P ++ (items ≫= item_drivers)) (r_g st') (r_ge st').
-  Proof.
-    induction items as [|it items IH]; intros st st' P H Hi HF Hnd HDD; simpl in H.
-    - injection H as <-. simpl. by rewrite app_nil_r.
-    - inversion HF as [|? ? Hok HF']; subst. apply rbind_ok in H as (st1 & H1 & H2).
-      cbn [mbind list_bind] in Hnd, HDD |- *. fold (mbind (M:=list) item_drivers) in Hnd, HDD |- *.
-      rewrite fmap_app in Hnd, HDD. rewrite app_assoc in Hnd.
-      assert (Hi1 : rinv k (P ++ item_drivers it) (r_g st1) (r_ge st1)).
-      { eapply c_item_rinv; [exact H1|exact Hi|exact Hok| |].
-        - by apply NoDup_app in Hnd as (? & _ & _).
-        - set_solver. }
-      specialize (IH st1 st' _ H2 Hi1 HF'). rewrite <- app_assoc in IH. apply IH.
-      + rewrite fmap_app. done.
-      + rewrite fmap_app. set_solver.
-  Qed.
 End items.
 
 (* ------------------------------------------------------------------ module(): marks and unused constants do not change the function *)
@@ -693,7 +678,7 @@ Qed.
 (* ------------------------------------------------------------------ read_denotes, soundness, blackbox-free modules *)
 Lemma init_rinv rsv bbs : let kg := init_ctx rsv bbs in
   k_rsv kg.1 = rsv ∧ k_bbs kg.1 = bbs ∧ ties kg.1 ## rsv ∧
-  k_t0 kg.1 ≠ k_t1 kg.1 ∧ k_t0 kg.1 ≠ k_tx kg.1 ∧ k_t1 kg.1 ≠ k_tx kg.1 ∧ rinv kg.1 [] kg.2 ∅.
+  k_t0 kg.1 ≠ k_t1 kg.1 ∧ k_t0 kg.1 ≠ k_tx kg.1 ∧ k_t1 kg.1 ≠ k_tx kg.1 ∧ ∀ NN, NN ⊆ rsv → rinv kg.1 NN [] kg.2 ∅.
 Proof.
   unfold init_ctx. cbv zeta. simpl.
   set (t0 := uid_in rsv "tie_0"). set (g0 := ({[t0 := mk_node C0 false ∅]} : circuit)).
@@ -723,7 +708,7 @@ Proof.
     - apply H1. apply elem_of_union_r, Hr.
     - apply Hx. apply elem_of_union_r, Hr. }
   split; [done|]. split; [done|]. split; [exact Htr|]. split; [done|]. split; [done|]. split; [done|].
-  split.
+  intros NN HNN. split.
   - unfold gst, ties. simpl. split; [|split; [|split]].
     + intros n i f Hn Hf. destruct (Lo n i Hn) as [_ E]. rewrite E in Hf. by apply elem_of_empty in Hf.
     + intros x Hx'. apply elem_of_dom. rewrite !elem_of_union, !elem_of_singleton in Hx'. destruct Hx' as [[->| ->]| ->]; eauto.
@@ -731,117 +716,8 @@ Proof.
     + intros z Hz _. by apply elem_of_empty in Hz.
   - split; eexists; eauto.
   - eexists; eauto.
-  - intros n Hn _ i Hi. destruct (Lo n i Hi) as [Hin _]. exfalso. by apply (Htr n).
+  - intros n Hn _ i Hi. destruct (Lo n i Hi) as [Hin _]. exfalso. apply (Htr n); [done|by apply HNN].
   - intros n d Hin. by apply elem_of_nil in Hin.
   - constructor.
 Qed.
 
-Theorem read_sound_items rsv bbs m C :
-  Forall (item_den_ok (init_ctx rsv bbs).1 (list_to_set (drivers m).*1)) (m_items m) → NoDup (drivers m).*1 →
-  read rsv bbs m = Ok C → ∀ w, consistent (c_g C) w → sat_module m w (w (k_tx (init_ctx rsv bbs).1)).
-Proof.
-  intros Hok Hnd H w Hw. unfold read in H. pose proof (init_rinv rsv bbs) as Hk. cbv zeta in Hk.
-  destruct (init_ctx rsv bbs) as [k g0]. simpl in Hk, Hok |- *. destruct Hk as (Er & Eb & Htr & N01 & N0x & N1x & Hi0). subst rsv.
-  apply mbind_ok in H as (st & Hf & Hfin).
-  eapply (items_rinv k _ Htr (m_items m) _ st []) in Hf; [|exact Hi0|exact Hok|exact Hnd|done].
-  simpl in Hf. fold (drivers m) in Hf. destruct Hf as [G T X U E N].
-  unfold finish in Hfin. repeat (case_bool_decide; simpl in Hfin; try discriminate).
-  destruct (set_output_g (r_g st) (elements (r_outs st)) true) as [g' o] eqn:Es. destruct o; [|discriminate].
-  injection Hfin as <-. simpl in Hw. fold (drop_tie g' (k_t0 k)) in Hw. fold (drop_tie (drop_tie g' (k_t0 k)) (k_t1 k)) in Hw.
-  fold (drop_tie (drop_tie (drop_tie g' (k_t0 k)) (k_t1 k)) (k_tx k)) in Hw.
-  pose proof (set_output_spec _ _ _ Es) as [_ Hl].
-  assert (Hty : ∀ z i, r_g st !! z = Some i → ∃ i', g' !! z = Some i' ∧ n_ty i' = n_ty i).
-  { intros z i Hz. rewrite Hl, Hz. simpl. case_bool_decide; eauto. }
-  destruct T as [(i0 & L0 & T0) (i1 & L1 & T1)]. destruct X as (ix & Lx & Tx).
-  destruct (Hty _ _ L0) as (j0 & M0 & S0). destruct (Hty _ _ L1) as (j1 & M1 & S1). destruct (Hty _ _ Lx) as (jx & Mx & Sx).
-  destruct (drop_lookup g' (k_t0 k) (k_t1 k) j1 (not_eq_sym N01) M1) as (j1' & M1' & S1').
-  destruct (drop_lookup g' (k_t0 k) (k_tx k) jx (not_eq_sym N0x) Mx) as (jx' & Mx' & Sx').
-  destruct (drop_lookup _ (k_t1 k) (k_tx k) jx' (not_eq_sym N1x) Mx') as (jx'' & Mx'' & Sx'').
-  assert (Hnr : ∀ z, z ∈ ties k → z ∉ k_rsv k) by (intros z Hz Hr; by apply (Htr z)).
-  assert (Href : refines_rsv k (r_g st) (drop_tie (drop_tie (drop_tie g' (k_t0 k)) (k_t1 k)) (k_tx k))).
-  { eapply refines_trans; [apply refines_same; intros v; by eapply set_output_consistent|].
-    eapply refines_trans; [eapply (drop_refines k g' (k_t0 k) j0 M0)|].
-    - rewrite S0, T0. set_solver.
-    - apply Hnr. unfold ties. set_solver.
-    - intros E'. done.
-    - eapply refines_trans; [eapply (drop_refines k _ (k_t1 k) j1' M1')|].
-      + rewrite S1', S1, T1. set_solver.
-      + apply Hnr. unfold ties. set_solver.
-      + intros E'. done.
-      + eapply (drop_refines k _ (k_tx k) jx'' Mx'').
-        * rewrite Sx'', Sx', Sx, Tx. set_solver.
-        * apply Hnr. unfold ties. set_solver.
-        * intros _. by rewrite Sx'', Sx', Sx. }
-  destruct (Href w Hw) as (v1 & C1 & A1 & X1).
-  intros n d Hin. rewrite Forall_forall in N. destruct (N _ Hin) as [Hn Hd]. simpl in *.
-  rewrite <- (A1 n Hn), <- X1. rewrite (E n d Hin v1 C1). apply sem_driver_ext. intros s Hs. apply A1, Hd. by apply elem_of_list_to_set.
-Qed.
-
-(* ------------------------------------------------------------------ from the boolean guard of the oracle (blackbox-free modules) *)
-Definition bbfree (m : vmodule) : Prop := ∀ mn insts, IInst mn insts ∈ m_items m → is_Some (prim_of_name mn).
-Lemma prim_of_name_gate mn t : prim_of_name mn = Some t → t ∈ gate_types.
-Proof. unfold prim_of_name, gate_types. repeat case_bool_decide; intros Hq; inversion Hq; set_solver. Qed.
-Lemma bind_fst {A} (f : A → list (string * driver)) (l : list A) : (l ≫= f).*1 = l ≫= (λ x, (f x).*1).
-Proof. induction l as [|x l IH]; [done|]. cbn. by rewrite fmap_app, IH. Qed.
-Lemma inst_drivers_defs bbs mn t ic : prim_of_name mn = Some t → (inst_drivers mn ic).*1 = inst_defs bbs mn ic.
-Proof.
-  intros E. unfold inst_drivers, inst_defs. rewrite E. destruct ic as [nm [[|o ins]|ps]]; simpl; try done. by destruct (as_id o).
-Qed.
-Lemma item_drivers_defs bbs it : (∀ mn insts, it = IInst mn insts → is_Some (prim_of_name mn)) → (item_drivers it).*1 = item_defs bbs it.
-Proof.
-  intros Hb. destruct it as [ns|ns|ns|mn insts|l]; simpl; try done.
-  - destruct (Hb mn insts eq_refl) as [t Et]. rewrite bind_fst. clear Hb. induction insts as [|ic insts IH]; [done|]. cbn.
-    by rewrite IH, (inst_drivers_defs bbs mn t ic Et).
-  - clear Hb. induction l as [|a l IH]; [done|]. rewrite !fmap_cons. f_equal. exact IH.
-Qed.
-Lemma drivers_defs bbs m : bbfree m → (drivers m).*1 = module_defs bbs m.
-Proof.
-  intros Hb. unfold drivers, module_defs. rewrite bind_fst. unfold bbfree in Hb. revert Hb. generalize (m_items m). intros items Hb.
-  induction items as [|it items IH]; [done|]. cbn. rewrite IH by (intros; eapply Hb; by right). f_equal.
-  apply item_drivers_defs. intros mn insts ->. eapply Hb. by left.
-Qed.
-
-Lemma in_subset_den rsv bbs m : in_subset bbs m = true → bbfree m → (list_to_set (module_ids m) : gset string) ⊆ rsv →
-  Forall (item_den_ok (init_ctx rsv bbs).1 (list_to_set (drivers m).*1)) (m_items m) ∧ NoDup (drivers m).*1.
-Proof.
-  intros Hs Hb Hids. pose proof (drivers_defs bbs m Hb) as Edd.
-  unfold in_subset in Hs. rewrite !andb_true_iff in Hs. destruct Hs as ((((((Hsh & _) & Hnd) & Hdef) & _) & _) & _).
-  apply bool_decide_eq_true in Hnd. rewrite forallb_forall in Hsh. rewrite forallb_forall in Hdef.
-  split; [|by rewrite Edd].
-  assert (Hitem : ∀ it s, it ∈ m_items m → s ∈ item_ids it → s ∈ rsv).
-  { intros it s Hit Hs'. apply Hids. rewrite elem_of_list_to_set. unfold module_ids. right. apply elem_of_app. right.
-    apply elem_of_list_bind. eauto. }
-  apply Forall_forall. intros it Hit. pose proof (Hsh it (proj1 (elem_of_list_In _ _) Hit)) as Hs'.
-  destruct it as [ns|ns|ns|mn insts|l]; simpl; try done.
-  - intros n Hn. split; [by apply (Hitem (IInput ns) n Hit)|]. rewrite Edd. intros Hin. apply elem_of_list_to_set in Hin.
-    apply elem_of_list_In in Hin. specialize (Hdef _ Hin). apply bool_decide_eq_true in Hdef. apply Hdef.
-    unfold sset. rewrite elem_of_list_to_set. unfold decl_inputs. apply elem_of_list_bind. exists (IInput ns). done.
-  - destruct (Hb mn insts Hit) as [t Et]. exists t. split; [done|]. split; [by eapply prim_of_name_gate|].
-    apply andb_true_iff in Hs' as [Hs' _]. rewrite forallb_forall in Hs'. apply Forall_forall. intros ic Hic.
-    specialize (Hs' ic (proj1 (elem_of_list_In _ _) Hic)). unfold inst_ok in Hs'. rewrite Et in Hs'.
-    destruct ic as [iname [[|o ins]|ps]]; simpl in Hs'; try discriminate. apply andb_true_iff in Hs' as [Ho Har].
-    apply bool_decide_eq_true in Ho as [n En]. pose proof (as_id_cid _ _ En) as ->.
-    assert (Hsub : ∀ s, s ∈ (cid n :: ins) ≫= ids_cond → s ∈ rsv).
-    { intros s Hs''. apply (Hitem (IInst mn insts) s Hit). simpl. right. apply elem_of_list_bind. exists (iname, Positional (cid n :: ins)).
-      split; [|done]. simpl. by right. }
-    exists n, ins. split; [done|]. split; [|split].
-    + split; simpl.
-      * apply Hsub. cbn. by left.
-      * intros s Hs''. apply elem_of_list_to_set in Hs''. apply Hsub. cbn. by right.
-    + destruct (bool_decide (t = Buf) || bool_decide (t = Not)); [|by apply negb_true_iff, bool_decide_eq_false in Har].
-      apply bool_decide_eq_true in Har. intros ->. done.
-    + intros Hbn. destruct (bool_decide (t = Buf) || bool_decide (t = Not)) eqn:Eb; [by apply bool_decide_eq_true in Har|].
-      apply orb_false_iff in Eb as [E1 E2]. apply bool_decide_eq_false in E1, E2. by destruct Hbn.
-  - apply Forall_forall. intros [lv e] Hin. split; simpl.
-    + apply (Hitem (IAssign l) lv Hit). simpl. apply elem_of_list_bind. exists (lv, e). split; [by left|done].
-    + intros s Hs''. apply elem_of_list_to_set in Hs''. apply (Hitem (IAssign l) s Hit). simpl. apply elem_of_list_bind. exists (lv, e). split; [by right|done].
-Qed.
-
-(* every consistent valuation of the circuit read from a blackbox-free module of the subset satisfies the module:
-   each assignment and each primitive instance holds, with all 1'bx read as the value of the node tie_x *)
-Theorem read_denotes_sound rsv bbs m C : in_subset bbs m = true → bbfree m → (list_to_set (module_ids m) : gset string) ⊆ rsv →
-  read rsv bbs m = Ok C → ∀ w, consistent (c_g C) w → ∃ x, sat_module m w x.
-Proof.
-  intros Hs Hb Hids H w Hw. destruct (in_subset_den rsv bbs m Hs Hb Hids) as [Hok Hnd].
-  eexists. by eapply read_sound_items.
-Qed.
